@@ -1,6 +1,7 @@
 use std::iter::once;
 
 use crate::bound::{Bounds, WhereClauseBuilder};
+use crate::syn_utils::keep_grouping;
 use proc_macro2::{Span, TokenStream, TokenTree};
 use quote::{quote, quote_spanned, ToTokens};
 use structmeta::{Flag, ToTokens};
@@ -965,8 +966,8 @@ impl HelperAttributeForCompareOp {
             Ok(Self {
                 ignore: args.ignore,
                 reverse: args.reverse,
-                by: args.by.map(|x| x.value),
-                key: args.key.map(|x| Template::new(x.value)),
+                by: args.by.map(|x| keep_grouping(x.value)),
+                key: args.key.map(|x| Template::new(keep_grouping(x.value))),
                 bounds: Bounds::from(&args.bound),
             })
         } else {
